@@ -216,13 +216,47 @@ def fit_cases(ml):
         yield '%s(n_components=%d).fit(valid)' % (cls, nc), run, False
 
 
+def history_cases(ml):
+  """malformed input is rejected whatever the object did before: after set_params(preprocessor=...) on a used estimator, indicators are
+  validated against the NEW preprocessor (none: indicators are then just arrays of the wrong rank; an array with NaN rows: non-finite data)"""
+  rng = np.random.RandomState(5)
+  X = rng.randn(12, D)
+  y = np.array([0, 1, 2] * 4)
+  idx_pairs = np.array([[0, 3], [1, 2], [4, 7], [5, 6], [8, 11], [9, 10], [0, 1], [2, 5]])
+  yp = np.array([1, -1] * 4)
+  Xnan = X.copy()
+  Xnan[::2, 1] = np.nan
+  specs = [('Covariance', {}, np.arange(12), ()), ('NCA', dict(max_iter=2), np.arange(12), (y,)), ('ITML', dict(max_iter=2), idx_pairs, (yp,)),
+           ('MMC', dict(max_iter=2), idx_pairs, (yp,))]
+  for cls, kw, idx, extra in specs:
+    for what, newprep in (('None', None), ('an array with NaN rows', Xnan)):
+      for second in (('fit',) if cls in ('Covariance', 'NCA') else ('fit', 'calibrate_threshold')):
+        def run(cls=cls, kw=kw, idx=idx, extra=extra, newprep=newprep, second=second):
+          with warnings.catch_warnings():
+            warnings.simplefilter('ignore')
+            est = getattr(ml, cls)(preprocessor=X.copy(), **kw)
+            try:
+              est.fit(idx, *extra)
+            except Exception as e:
+              return 'ValueError'          # the first, well-formed fit is not what this case is about
+            est.set_params(preprocessor=newprep)
+            try:
+              getattr(est, second)(idx, *extra)
+              return 'returned'
+            except ValueError:
+              return 'ValueError'
+            except Exception as e:
+              return type(e).__name__
+        yield ('%s(preprocessor=X).fit(indicators); set_params(preprocessor=%s); %s(indicators)' % (cls, what, second), run, False)
+
+
 def run(tier, seed):
   ml = repo()
   cases = 0
   vio = []
   samples = []
   seen = set()
-  for desc, thunk, valid in itertools.chain(iterate(ml, tier), fit_cases(ml)):
+  for desc, thunk, valid in itertools.chain(iterate(ml, tier), fit_cases(ml), history_cases(ml)):
     cases += 1
     got = thunk()
     seen.add(desc)
